@@ -100,6 +100,7 @@ def cases(draw, tier):
                        'priority': draw(st.sampled_from(['random', 'large_first', 'small_first'])),
                        'list_order': draw(st.sampled_from(['kept', 'shuffled']))},
             'uuid_seed': draw(st.integers(0, 2 ** 20)), 'inject': [3, 0],
+            'route': draw(gen.routes(nl)),
         }
     types = WEIGHTED if shape != 'unsupported' else WEIGHTED + UNSUPPORTED
     nl = draw(gen.netlists(min_inputs=draw(st.sampled_from([2, 3, 3, 4])), max_inputs=5, min_gates=2,
@@ -126,6 +127,7 @@ def cases(draw, tier):
         'uuid_seed': draw(st.integers(0, 2 ** 20)),
         'inject': [draw(st.integers(2, 4)), draw(st.integers(0, 3))],
     }
+    case['route'] = draw(gen.routes(nl))
     return case
 
 
@@ -229,7 +231,9 @@ def motif_pair_case(m1, m2, ops2, k):
             'max_subcircuit_size': 5 + k % 3, 'cut_size': 4, 'cut_limit': 25, 'fanout_size': 10000, 'time_limit': 0,
             'enable_validation': bool(k % 2),
             'policy': {'mode': 'reference' if k % 2 else 'generated', 'seed': k, 'priority': 'random', 'list_order': 'kept'},
-            'uuid_seed': k, 'inject': [3, 0]}
+            'uuid_seed': k, 'inject': [3, 0],
+            'route': [{'kind': 'emplace'}, {'kind': 'rename', 'moves': [5 + k % 3, 6, 8 + k % 2]},
+                      {'kind': 'bench', 'keys': [(k * 7 + q * 3) % 5 for q in range(20)]}][k % 3]}
 
 
 def replay_motif_pair(case):
@@ -266,9 +270,14 @@ def check_minimize(case):
     import pysat.solvers as shim
 
     nl = case['nl']
-    c = build.build(nl)
+    c = build.build(nl, case.get('route'))
     snapshot_nl = refsem.from_circuit(c)
+    stored = [g.label for g in c.gates.values()]
+    spos = {l: i for i, l in enumerate(stored)}
+    storage_not_topological = any(spos[o] > spos[l] for l, _, ops in nl['gates'] for o in ops)
     cls = circuit_classes(nl) | {'shape:' + case['shape']}
+    if storage_not_topological:
+        cls.add('storage_not_topological')
     unsupported = any(g[1] not in SUPPORTED + ['INPUT'] for g in nl['gates'])
     basis = case['basis']
     basis_arg = Basis[basis[5:]] if basis.startswith('enum:') else basis
@@ -366,7 +375,7 @@ SPEC = {
     'sharded': {'motif_pairs': motif_pairs_sweep},
     'replay': {'motif_pairs': replay_motif_pair},
     'subs': [Sub('minimize', cases, check_minimize, {'quick': 3200, 'thorough': 60000}, shrink_quick=False)],
-    'required_classes': {'minimize': ['clean', 'comp', 'eq', 'dead', 'changed', 'smaller', 'clean&changed', 'shape:motif', 'policy:generated',
+    'required_classes': {'minimize': ['clean', 'comp', 'eq', 'dead', 'changed', 'smaller', 'clean&changed', 'shape:motif', 'storage_not_topological', 'policy:generated',
                                       'policy:reference', 'forked_solver', 'timeout_injection', 'unsupported_rejected',
                                       'basis:AIG', 'basis:XAIG', 'basis:FULL']},
 }
